@@ -117,7 +117,11 @@ func (fc *FnCtx) solveObligation(ob *Obligation, timeout time.Duration) {
 			continue
 		}
 		seen[text] = true
-		r := solve(text, arraySolvers, timeout)
+		to := timeout
+		if ob.MustFail && to > 3*time.Second {
+			to = 3 * time.Second
+		}
+		r := solve(text, arraySolvers, to)
 		if r.Ms > ob.Ms {
 			ob.Ms = r.Ms
 		}
